@@ -3,7 +3,8 @@
 # Mutation self-test of one property's check ("the checker fires on a variant with one instance broken"):
 # every patch under /verif/mutants/<id>/*.diff and /verif/seeded/<id>*/patch.diff is applied to a scratch COPY of
 # /repo's current working tree (outside /repo and /verif, removed afterwards); the check must then report a
-# violation, and for mutants with '# expect:' headers every expected obligation key. A patch that no longer
+# violation, and for mutants with '# expect:' headers every expected obligation key (as violated, or as undecided:
+# an obligation the check can no longer decide fails the check just the same). A patch that no longer
 # applies to the current tree is skipped (reported), never counted as a miss. Static analysis only: nothing is run
 # but the checker. Prints one line per mutant and a summary 'SELFTEST property=<id> applied=N flagged=N missed=N skipped=N'.
 # Exit status: 0 = no miss, 4 = at least one mutant was not reported (the check has lost detection power).
@@ -29,10 +30,10 @@ for p in "$here"/mutants/$id/*.diff "$here"/seeded/${id}[a-z]*/patch.diff; do
   if [ $rc -ne 1 ]; then miss="check exit status $rc (want 1)"; fi
   while IFS= read -r key; do
     [ -z "$key" ] && continue
-    if ! grep -F ": violated " <<<"$out" | grep -qF -- "$key"; then miss="$miss; expected obligation not reported: $key"; fi
+    if ! grep -E ": (violated|UNDECIDED) " <<<"$out" | grep -qF -- "$key"; then miss="$miss; expected obligation not reported: $key"; fi
   done < <(sed -n 's/^# expect: //p' "$p")
   if [ -z "$miss" ]; then
-    n=$(grep -c ": violated " <<<"$out")
+    n=$(grep -cE ": (violated|UNDECIDED) " <<<"$out")
     echo "SELFTEST-OK property=$id mutant=$name violations=$n"; flagged=$((flagged+1))
   else
     echo "SELFTEST-MISS property=$id mutant=$name $miss"; missed=$((missed+1))
